@@ -1,9 +1,120 @@
 import TaurexModel.Proto
+import TaurexModel.Likelihood
 
 namespace Taurex.Ops.C06
-open Taurex.Proto
+open Taurex.Proto Taurex.Likelihood
 
-/-- operations of the C06 model served by `driver_c06` (filled in by the C06 check) -/
-def ops : List Op := []
+/-- prior on the wire: `kind a b z`; kinds: 0 `Uniform(bounds=[a,b])`, 1 `LogUniform(bounds=[a,b])`,
+    2 `LogUniform(lin_bounds=[a,b])`, 3 `Gaussian(mean=a, std=b)`, 4 `LogGaussian(mean=a, std=b)`,
+    5 / 6 default prior of `compile_params` for mode linear / log with bounds `[a, b]`.
+    `z` is `scipy.special.ndtri(u)` at the cube point the harness is going to ask for (external; Gaussians only). -/
+def priorP : P (Prior Float) := do
+  let k ← nat
+  let a ← flt
+  let b ← flt
+  let z ← flt
+  match k with
+  | 0 => pure (uniform a b)
+  | 1 => pure (logUniform a b)
+  | 2 => pure (logUniformLin a b)
+  | 3 => pure (gaussian (fun _ => z) a b)
+  | 4 => pure (logGaussian (fun _ => z) a b)
+  | 5 => pure (defaultPrior false a b)
+  | 6 => pure (defaultPrior true a b)
+  | _ => failure
+
+def fVal (v : Val Float) : String :=
+  match v with
+  | .fin x => "0 " ++ fF x
+  | .nan => "1 0"
+  | .posInf => "2 0"
+
+def outP : P (ModelOut Float) := do
+  let k ← nat
+  let m ← listOf (optOf flt)
+  pure (if k == 0 then ModelOut.ok m else ModelOut.invalid)
+
+/-- `c06.prior priors cube` → transformed cube -/
+def priorOp (args : List String) : Option String :=
+  run (do
+    let ps ← listOf priorP
+    let cube ← listOf flt
+    pure (fList fF (priorTransform ps cube))) args
+
+/-- `c06.update priors vals` → option (values written to the fitted parameters) -/
+def updateOp (args : List String) : Option String :=
+  run (do
+    let ps ← listOf priorP
+    let vals ← listOf flt
+    pure (fOpt (fList fF) (updateModel ps vals))) args
+
+/-- `c06.chisq obs sig out` → Val -/
+def chisqOp (args : List String) : Option String :=
+  run (do
+    let obs ← listOf flt
+    let sig ← listOf flt
+    let out ← outP
+    match out with
+    | .ok m => if m.length ≠ obs.length ∨ sig.length ≠ obs.length then failure else pure ()
+    | .invalid => pure ()
+    pure (fVal (chisq obs sig out))) args
+
+/-- `c06.loglike pi obs sig out` → Val -/
+def loglikeOp (args : List String) : Option String :=
+  run (do
+    let pi ← flt
+    let obs ← listOf flt
+    let sig ← listOf flt
+    let out ← outP
+    match out with
+    | .ok m => if m.length ≠ obs.length ∨ sig.length ≠ obs.length then failure else pure ()
+    | .invalid => pure ()
+    pure (fVal (loglike pi obs sig out))) args
+
+/-- fixture forward model of the harness (`PolyModel` in harness/c06.py): `sum_k params[k]*x**k` evaluated as
+    `c0 + c1*x + c2*x*x + …`, invalid when `params[0] > limit`, NaN in the bins listed in `nanBins` -/
+def polyFm (xs : List Float) (limit : Float) (nanBins : List Nat) (params : List Float) : ModelOut Float :=
+  if limit < params.getD 0 0 then .invalid
+  else .ok ((List.range xs.length).map (fun i =>
+    if nanBins.contains i then none
+    else
+      let x := xs.getD i 0
+      let (acc, _) := params.foldl (fun (st : Float × Float) c => (st.1 + c * st.2, st.2 * x)) (0, 1)
+      some acc))
+
+/-- `c06.cube_poly pi priors xs limit nanBins obs sig cubes` → for each cube point: option Val, i.e.
+    `runSequence … (cubes.map (priorTransform priors))` with the fixture forward model -/
+def cubePolyOp (args : List String) : Option String :=
+  run (do
+    let pi ← flt
+    let ps ← listOf priorP
+    let xs ← listOf flt
+    let limit ← flt
+    let nb ← listOf nat
+    let obs ← listOf flt
+    let sig ← listOf flt
+    let cubes ← listOf (listOf flt)
+    if xs.length ≠ obs.length ∨ sig.length ≠ obs.length then failure else pure ()
+    let res := runSequence pi ps (polyFm xs limit nb) obs sig (cubes.map (priorTransform ps))
+    pure (fList (fOpt fVal) res)) args
+
+/-- `c06.theta_poly …` the same for points of the sampled space (no prior transform) -/
+def thetaPolyOp (args : List String) : Option String :=
+  run (do
+    let pi ← flt
+    let ps ← listOf priorP
+    let xs ← listOf flt
+    let limit ← flt
+    let nb ← listOf nat
+    let obs ← listOf flt
+    let sig ← listOf flt
+    let thetas ← listOf (listOf flt)
+    if xs.length ≠ obs.length ∨ sig.length ≠ obs.length then failure else pure ()
+    let res := runSequence pi ps (polyFm xs limit nb) obs sig thetas
+    pure (fList (fOpt fVal) res)) args
+
+def ops : List Op :=
+  [("c06.prior", priorOp), ("c06.update", updateOp), ("c06.chisq", chisqOp), ("c06.loglike", loglikeOp),
+   ("c06.cube_poly", cubePolyOp), ("c06.theta_poly", thetaPolyOp)]
 
 end Taurex.Ops.C06
